@@ -549,6 +549,13 @@ fn resolve_regions(
 
     // Create vftable
     let first_base = regions.iter().map(|t| &t.1).find(|r| r.is_base);
+    // Whether this type shares the vftable pointer of its first base can only be decided
+    // once that base is resolved.
+    if let Some(first_base) = first_base {
+        if first_base.size(&semantic.type_registry).is_none() {
+            return Ok(None);
+        }
+    }
     let (vftable, vftable_region) = vftable::build(
         semantic,
         resolvee_path,
